@@ -160,7 +160,7 @@ func rawTypes(o *dops) []string {
 		"double", "real", "int", "int(11)", "integer", "bigint(20) unsigned", "tinyint(1)", "blob", "text", "json", "uuid", "date", "datetime(6)", "timestamp(3)", "time"}
 	switch o.name {
 	case "sqlite":
-		rs = append(rs, "VARCHAR(10)", "varying character(5)", "unsigned big int", "native character(70)", "double precision", "numeric(10,5)", "my_type", "MyType(3)", "nvarchar(100)", "clob", "boolean", "jsonb")
+		rs = append(rs, "VARCHAR(10)", "varying character(5)", "unsigned big int", "native character(70)", "double precision", "numeric(10,5)", "my_type", "MyType(3)", "nvarchar(100)", "clob", "boolean", "jsonb", "Point3D", "GeoJSON", "MyType")
 	case "mysql":
 		rs = append(rs, "int(10) unsigned zerofill", "int unsigned", "decimal(10,2) unsigned", "float unsigned", "double(10,2)", "bit(8)", "bit", "binary(16)", "binary", "varbinary(255)",
 			"enum('a','b')", "set('x','y')", "year(4)", "year", "point", "geometry", "inet6", "longtext", "mediumblob", "bool", "boolean", "tinyint(4)", "varchar(0)", "bit(1)", "binary(1)")
@@ -221,6 +221,10 @@ func gridTypes(o *dops, tier string) []gtype {
 		}
 		for _, v := range variants(t0, tier, nil) {
 			add(v, "specx")
+		}
+		// the type written with the spec's own name (an alias such as mysql `boolean`, postgres `int4`)
+		if s.RType == nil && !(o.name == "postgres" && s.ToSpec != nil) {
+			add(setT(t0, s.T), "spec")
 		}
 	}
 	// 2. what inspection produces for raw column types.
